@@ -263,7 +263,7 @@ func runC02One(cs *vrt.Case) {
 			if r.Intn(5) == 0 {
 				kind = 3
 			}
-			opts := yaoOpts{ot: otk, kind: kind, stallWin: 30 * time.Second, verbose: (cs.Idx+pi)%4 == 3}
+			opts := yaoOpts{ot: otk, kind: kind, stallWin: 30 * time.Second, verbose: (cs.Idx+pi)%4 == 3, shortReads: []int{0, 0, 16, 0, 0, 255, 0, 1, 0, 0}[(cs.Idx+pi)%10]}
 			dying := kind == 2 && r.Intn(12) == 0
 			if dying {
 				// the garbler's entropy source dies part-way: the session may
